@@ -68,7 +68,9 @@ inline bool deliver_F(Rng& r, uint64_t idx)
   std::vector<Issue> all;
   for (auto& t : ts) all.insert(all.end(), t.issues.begin(), t.issues.end());
   auto evs = recorder().snapshot();
-  bool ok = check_delivery(w, all, evs, DeliverOpts{}, "deliver_F");
+  DeliverOpts dopts;
+  if (g_label == "C20") dopts.prop = "C20"; // mode F: every thread exits with statements possibly still queued
+  bool ok = check_delivery(w, all, evs, dopts, "deliver_F");
   uint64_t allocs = 0, blocks = 0;
   for (auto const& n : recorder().notes_snapshot())
   {
@@ -98,7 +100,7 @@ inline bool deliver_S(Rng& r, uint64_t idx)
   // schedule policy
   uint32_t const policy = static_cast<uint32_t>(r.below(5)); // 0 uniform, 1 starve backend, 2 poll after every statement, 3 exit before first poll, 4 bursts
   uint32_t const steps = static_cast<uint32_t>(r.range(40, 300));
-  uint64_t hard_limit_stops = 0, early_exits = 0, polled_yet = 0, flushes = 0, shrinks = 0;
+  uint64_t hard_limit_stops = 0, early_exits = 0, polled_yet = 0, flushes = 0, shrinks = 0, exits = 0;
   bool shrink_ok = true;
   World* wp = &w;
   auto do_log = [&](SW& s)
@@ -180,6 +182,7 @@ inline bool deliver_S(Rng& r, uint64_t idx)
       // a thread exits (possibly with statements still queued, possibly before the backend has polled at all)
       SW& s = *idle[r.below(idle.size())];
       if (!polled_yet) ++early_exits;
+      ++exits;
       run.exit_worker(s);
       if (r.chance(2, 3)) run.spawn();
       continue;
@@ -204,7 +207,10 @@ inline bool deliver_S(Rng& r, uint64_t idx)
   if (ok)
   {
     auto evs = recorder().snapshot();
-    ok = check_delivery(w, run.all_issues(), evs, DeliverOpts{}, "deliver_S");
+    DeliverOpts dopts;
+    // run for C20 (--label C20): a loss in a scenario with thread exits or shrink requests is a C20 violation
+    if (g_label == "C20" && (shrinks || exits)) dopts.prop = "C20";
+    ok = check_delivery(w, run.all_issues(), evs, dopts, "deliver_S");
     run.finish_workers();
     run.poll();
   }
